@@ -119,12 +119,41 @@ def fault_rules(chk, repo, rule):
                 failed.append(f"{sit}: the load returns, but {bad[0][3]}")
             else:
                 n_ok += 1
+    # short reads: a file object may hand back fewer bytes than asked for.  What the pinned tree does then is not claimed; but code
+    # that reacts to a short read with further requests (a top-up loop, a per-record fallback) must end up with the selected lines
+    # or raise
+    short_failed = []
+    for n, rpc, ix in FAULT_LOADS[:4]:
+        clean, ranges, content = run_load(repo, n, 8, rpc, ix)
+        if clean.outcome != "returned":
+            continue
+        n_reads = len([e for e in clean.trace.events if e[0] == "read"])
+        for at in range(n_reads):
+            ld, ranges, content = run_load_with_fault(repo, n, 8, rpc, ix, at, kind="short")
+            reads = [e for e in ld.trace.events if e[0] == "read"]
+            if not ld.fault.get("fired") or len(reads) <= n_reads:
+                continue  # the short read was not reacted to with further requests: not judged
+            sit = f"selection {ix!r} of a {n}-line image at records_per_chunk={rpc}, request {at + 1} of {n_reads} is served only in part and the load reacts with {len(reads) - n_reads} further request(s)"
+            if ld.outcome.startswith("undecided") or ld.outcome.startswith("nonterminating"):
+                undecided.append((n, rpc, ix, at, ld.outcome))
+                continue
+            if ld.outcome.startswith("raised"):
+                n_ok += 1
+                continue
+            bad = [r for r in judge(ld, ranges, content, n, rpc, ix) if r[0] in ("rows", "confined") and not r[1]]
+            if bad:
+                short_failed.append(f"{sit}: the load returns, but {bad[0][3]}")
+            else:
+                n_ok += 1
+    for m in short_failed[:1]:
+        chk.fail(rule, WHERE, m + (f" (and {len(short_failed) - 1} more)" if len(short_failed) > 1 else ""), key="load:short-read-fallback")
+    failed_any = failed or short_failed
     for m in failed[:1]:
         chk.fail(rule, WHERE, m + (f" (and {len(failed) - 1} more interrupted loads)" if len(failed) > 1 else ""), key="load:interrupted")
-    if undecided and not failed:
+    if undecided and not failed_any:
         n, rpc, ix, at, why = undecided[0]
         raise AnalysisError(f"{WHERE}: an interrupted load cannot be evaluated for {len(undecided)} cases (e.g. {ix!r} on {n} lines, records_per_chunk={rpc}, request {at}: {why[:140]})")
-    if not failed:
+    if not failed_any:
         for _ in range(n_ok):
             chk.ok(rule, WHERE, "interrupted model load")
         chk.samples.append({"rule": rule, "where": WHERE, "obligation": {"interrupted loads": n_ok, "selections": len(FAULT_LOADS)}})
@@ -166,3 +195,36 @@ def wrapper_requests(chk, repo, rule):
     if not failed:
         for _ in WRAPPER_KEYS:
             chk.ok(rule, where, "model load through the wrapper")
+
+
+def wrapper_interrupted(chk, repo, rule):
+    """one load as xarray issues it, during which the first request fails once with a connection reset: the wrapper lets the error
+    through, or - when it retries - the array is finally indexed in a way that gives the caller's selection: the selected lines, an
+    integer row index still dropping the row axis"""
+    from ..loadmodel import run_wrapper_load
+    where = "ceos_alos2/xarray.py:LazilyIndexedWrapper._raw_indexing_method"
+    keys = [(9, 4, (5, slice(None, None, None))), (9, 4, (slice(1, 9, 1), slice(None, None, None))), (9, 2, (0, 3))]
+    chk.rule(rule, "a load through the backend wrapper whose first request fails raises or, when retried, still serves the caller's key (rows, dropped axis)", len(keys))
+    undecided, failed, n_ok = [], [], 0
+    for n, rpc, key in keys:
+        ld, ranges, content = run_wrapper_load(repo, n, 8, rpc, key, fault={"kind": "read", "at": 0})
+        sit = f"selection {key!r} of a {n}-line image at records_per_chunk={rpc}, the first request fails once with a connection reset"
+        if ld.outcome.startswith("undecided") or ld.outcome.startswith("nonterminating"):
+            undecided.append((n, rpc, key, ld.outcome))
+            continue
+        if ld.outcome.startswith("raised"):
+            n_ok += 1
+            continue
+        bad = [r for r in judge(ld, ranges, content, n, rpc, key) if r[0] in ("rows", "axis", "columns") and not r[1]]
+        if bad:
+            failed.append(f"{sit}: the load returns after a retry, but {bad[0][3]}")
+        else:
+            n_ok += 1
+    for m in failed[:1]:
+        chk.fail(rule, where, m + (f" (and {len(failed) - 1} more)" if len(failed) > 1 else ""), key="wrapper-load:interrupted")
+    if undecided and not failed:
+        n, rpc, key, why = undecided[0]
+        raise AnalysisError(f"{where}: an interrupted load through the wrapper cannot be evaluated (e.g. {key!r} on {n} lines, records_per_chunk={rpc}: {why[:160]})")
+    if not failed:
+        for _ in range(n_ok):
+            chk.ok(rule, where, "interrupted model load through the wrapper")
